@@ -168,6 +168,21 @@ func genPath(r *vproto.Rng, style int, rs []shapes.Ring, mn, mx ipt) []ipt {
 			q.Y += sy * (h + h%2)
 			add(q)
 		}
+	case 6: // starts inside, leaves, comes back: first and last vertex inside, a middle vertex outside
+		pick := func(want int) (ipt, bool) {
+			for try := 0; try < 80; try++ {
+				q := ipt{X: ev(r, mn.X-4, mx.X+4), Y: ev(r, mn.Y-4, mx.Y+4)}
+				if shapes.InRings(rs, q) == want {
+					return q, true
+				}
+			}
+			return ipt{}, false
+		}
+		for _, want := range []int{1, 0, 1, 0, 1}[:3+2*r.Intn(2)] {
+			if q, ok := pick(want); ok {
+				add(q)
+			}
+		}
 	default: // straight through the middle, 2-3 vertices, starts and ends outside
 		cy := ev(r, mn.Y, mx.Y)
 		add(ipt{X: mn.X - 3 - (mn.X-3)%2 - 2, Y: cy})
@@ -188,13 +203,13 @@ func toLS(p []ipt) geom.LineString {
 }
 
 var kinds = []string{"PG", "MPG", "B"}
-var styleCycle = []int{0, 1, 2, 3, 4, 5, 0, 1, 1, 5, 2, 0}
+var styleCycle = []int{0, 1, 2, 3, 4, 5, 6, 1, 1, 5, 2, 0, 6}
 
 func gen(seed uint64, tier string) {
 	out := bufio.NewWriter(os.Stdout)
 	defer out.Flush()
 	r := vproto.NewRng(seed)
-	n := 1500
+	n := 3000
 	if tier == "thorough" {
 		n = 40000
 	}
@@ -234,7 +249,7 @@ func gen(seed uint64, tier string) {
 		mn, mx, _ := P.BBox()
 		style := styleCycle[(i/3)%len(styleCycle)]
 		members := 1
-		multi := (i/36)%2 == 1
+		multi := (i/39)%2 == 1
 		if multi {
 			members = r.Range(1, 4)
 		}
@@ -242,7 +257,7 @@ func gen(seed uint64, tier string) {
 		for m := 0; m < members; m++ {
 			st := style
 			if m > 0 {
-				st = r.Intn(6)
+				st = r.Intn(7)
 			}
 			for try := 0; try < 12; try++ {
 				p := genPath(r, st, rs, mn, mx)
